@@ -11,8 +11,15 @@
   parsers/slice/lexer.rs that is itself tied to the real lexer by the correspondence stream `C02lex` (engine `slicelex`):
   whitespace, line breaks, `//` and `/* */` comments, optional commas and backslash-escaped identifiers never change the
   token sequence the parser receives (optional commas — layout in the printer model — show up as extra `Comma` tokens
-  exactly where they were written, nothing else).  The grammar half (tokens → AST) stays with the correspondence
-  (`parse_print_full` states it).
+  exactly where they were written, nothing else);
+  (4) the GRAMMAR half is proved below too: `Model/SliceParser.lean` is an executable recursive-descent model of
+  parsers/slice/grammar.lalrpop and of the actions of grammar.rs (one function per nonterminal; its production list is proved
+  equal to the list extracted from grammar.lalrpop: `grammar_table_matches`; tied to the real LALRPOP parser by the
+  correspondence stream `C02parse`: accept / reject (E002) and the AST, on rendered programs, token soups in valid
+  contexts and single-token mutations), its fuel is never exhausted (`parser_fuel_never_exhausted`), and it inverts the
+  printer: `parse_print` (the token sequence of every well-formed file, with optional commas written anywhere the layout
+  may write them, parses back to exactly that file) and, composed with `layout_independence`, `parse_print_full`: for ALL
+  files, ALL layouts and ALL seeds, lexing and parsing the rendered text gives back the abstract file.
 -/
 import SlicecVerif.Model.Literals
 import SlicecVerif.Model.Elab
@@ -20,6 +27,10 @@ import SlicecVerif.Gen.Keywords
 import SlicecVerif.Lemmas.SliceLexerLayout
 import SlicecVerif.Lemmas.SliceLexerItems
 import SlicecVerif.Lemmas.SliceLexerNames
+import SlicecVerif.Lemmas.SliceParserItems
+import SlicecVerif.Lemmas.SliceParserFuel
+import SlicecVerif.Lemmas.SliceParserLeaves
+import SlicecVerif.Gen.SliceGrammar
 
 namespace Slicec.C02
 
@@ -264,12 +275,122 @@ theorem two_layouts_same_tokens (f : SFile) (hf : fileOk f = true) (l1 s1 l2 s2 
   obtain ⟨c2, _, h2, e2⟩ := layout_independence f hf l2 s2
   exact ⟨_, _, h1, h2, by rw [dropCommas_of_commaExt e1, dropCommas_of_commaExt e2]⟩
 
-/-- The grammar half, NOT proved here (no Lean model of the LALRPOP grammar; checked by the `compile` correspondence
-    against `astDump`): the token sequence of a well-formed file determines its AST dump, i.e. a parser that inverts
-    `tokensOf ∘ fileItems` exists and is what the real parser computes. Stated in its model-level form. -/
-def parse_print_full : Prop :=
-  ∀ f g : SFile, fileOk f = true → fileOk g = true →
-    dropCommas (tokensOf (fileItems f)) = dropCommas (tokensOf (fileItems g)) → astDump [f] = astDump [g]
+/-! ## the grammar half (model: Model/SliceParser.lean, tied to the LALRPOP parser by stream `C02parse`) -/
+
+open Slicec.SPar
+
+/-- **The parser model implements the productions of grammar.lalrpop.** The production list the model documents (one
+    entry per nonterminal, with the function that implements it: Model/SliceParser.lean `productions`) equals the list
+    the translator extracts from grammar.lalrpop on every run — nonterminals in source order, every alternative with its
+    symbols (bindings and location markers removed, `?` `*` `+`, groups and macro applications kept) and the helper its
+    action calls; the token kinds the model distinguishes are the declared terminals, and every keyword kind the lexer
+    can produce is one of them.  A production that is added, removed, reordered or re-shaped re-opens this proof. -/
+theorem grammar_table_matches :
+    productions = Gen.sliceGrammar ∧ tokenKinds = Gen.sliceTerminals.map (·.2) ∧
+    ∀ k ∈ Gen.sliceKeywords, k.2 ∈ tokenKinds := by decide
+
+/-- **The fuel of the parser model is never exhausted.** Lists (`X*`, `UndelimitedList`, `NonEmptyCommaList`) and nested
+    type references recurse on a counter; every list element and every type reference consumes at least one token, so
+    for every token list any counter above its length gives the same result as the `length + 1` the entry points supply:
+    no input is rejected (or accepted differently) because a counter ran out. -/
+theorem parser_fuel_never_exhausted (n : Nat) (ts : Toks) (hn : ts.length < n) :
+    manyF localAttrStep n ts = many localAttrStep ts ∧ manyF fileAttrStep n ts = many fileAttrStep ts ∧
+    manyF preludeStep n ts = many preludeStep ts ∧ manyF fieldStep n ts = many fieldStep ts ∧
+    manyF paramStep n ts = many paramStep ts ∧ manyF opStep n ts = many opStep ts ∧
+    manyF enumeratorStep n ts = many enumeratorStep ts ∧ manyF baseStep n ts = many baseStep ts ∧
+    manyF defStep n ts = many defStep ts ∧ parseTypeRefF n ts = parseTypeRef ts :=
+  fuel_never_exhausted n ts hn
+
+/-- every parser of the model returns a suffix no longer than its input, and the parser of a type reference a strictly
+    shorter one (the facts behind `parser_fuel_never_exhausted`). -/
+theorem parsers_consume : Shrinks parseTypeRef ∧ Shrinks parseAttribute ∧ ShrinksLe parsePrelude ∧
+    StepShrinks fieldStep ∧ StepShrinks paramStep ∧ StepShrinks opStep ∧ StepShrinks enumeratorStep ∧ StepShrinks defStep :=
+  ⟨parseTypeRef_lt, parseAttribute_lt, parsePrelude_le, fieldStep_shrinks, paramStep_shrinks, opStep_shrinks,
+   enumeratorStep_shrinks, defStep_shrinks⟩
+
+/-- **Stage 1: what the printer writes.** For every well-formed file and every choice of the optional commas, the token
+    sequence the items denote has the file's *shape* (`FileSh`, Lemmas/SliceParserDefs.lean): file attributes, module
+    declaration, definitions — each element its doc lines, attributes, keywords, name, members in order, with an optional
+    comma exactly where the grammar has `","?` (after the members of `{…}` blocks, between parameters / tuple elements /
+    enumerator fields), nothing else. -/
+theorem printed_tokens_have_shape (f : SFile) (hf : fileOk f = true) (hrt : fileRT f = true) (cs : List Bool) :
+    FileSh f (tokensWith false cs (fileItems f)) := fileSh_tokensWith f hf hrt cs
+
+/-- **Stage 2: the parser inverts the shape.** Every token sequence of the shape of a file (whatever optional commas
+    it contains) is accepted by the parser model, no action reports a syntax error, and the result is exactly that
+    file: every declared element, in order, with its modifiers, tags, types, attributes, doc lines — nothing else. -/
+theorem parser_inverts_shape (f : SFile) (hrt : fileRT f = true) (T : Toks) (hT : FileSh f T) : parseFile T = some f :=
+  parseFile_shape f hrt T hT
+
+/-- **parse ∘ print = id on tokens, with optional commas.** For every file `f` of the abstract syntax whose leaves are
+    well-formed (`fileOk`: the hypothesis of `layout_independence`) and read back as themselves (`fileRT`: scoped names,
+    module paths and directives as printed are one `RelativeIdentifier` / `GlobalIdentifier` whose `::`-join is the name;
+    integer literals are the digits of their value in their base, `underscores` says whether any were written; doc lines
+    do not start with a fourth `/` and do not end in CR — decidable, each necessary (examples below), evaluated on every
+    generated file by the `C02parse` driver) and for EVERY choice list `cs` of the optional commas: the parser model,
+    applied to the token sequence of `f` with those commas written, returns `f`. -/
+theorem parse_print (f : SFile) (hf : fileOk f = true) (hrt : fileRT f = true) (cs : List Bool) :
+    parseFile (tokensWith false cs (fileItems f)) = some f :=
+  parseFile_shape f hrt _ (fileSh_tokensWith f hf hrt cs)
+
+/-- the canonical token sequence (no optional comma written) parses back to the file. -/
+theorem parse_print_canonical (f : SFile) (hf : fileOk f = true) (hrt : fileRT f = true) :
+    parseFile (tokensOf (fileItems f)) = some f := parse_print f hf hrt []
+
+/-- **Source-to-AST fidelity, end to end on the models, for ALL files, ALL layouts, ALL seeds.** Lexing (model of
+    lexer.rs) and parsing (model of grammar.lalrpop + grammar.rs) the text that `render` writes for `f` — in the canonical
+    layout or any pseudo-random one: arbitrary whitespace, LF / CR LF, tabs, `//` and `/* */` comments in every gap,
+    optional commas written or not, identifiers written with or without a backslash — gives back exactly `f`.
+    (`layout_independence` ∘ `parse_print`.) -/
+theorem parse_print_full (f : SFile) (hf : fileOk f = true) (hrt : fileRT f = true) (layout seed : Nat) :
+    parseText (render layout seed (fileItems f)).1.toList = some f := by
+  obtain ⟨cs, _, hlex, _⟩ := layout_independence f hf layout seed
+  simp only [parseText, hlex, parse_print f hf hrt cs]
+
+/-- any two layouts of a file denote the same file, hence the same AST dump. -/
+theorem layouts_same_file (f : SFile) (hf : fileOk f = true) (hrt : fileRT f = true) (l1 s1 l2 s2 : Nat) :
+    parseText (render l1 s1 (fileItems f)).1.toList = parseText (render l2 s2 (fileItems f)).1.toList := by
+  rw [parse_print_full f hf hrt l1 s1, parse_print_full f hf hrt l2 s2]
+
+/-- **The token sequence determines the file** (the model-level form of "the AST says exactly what the source says"):
+    two well-formed files whose token sequences agree — under any choices of the optional commas — are the same file,
+    and so have the same AST dump. -/
+theorem tokens_determine_file (f g : SFile) (hf : fileOk f = true) (hg : fileOk g = true) (hrf : fileRT f = true)
+    (hrg : fileRT g = true) (cs cs' : List Bool)
+    (h : tokensWith false cs (fileItems f) = tokensWith false cs' (fileItems g)) : f = g ∧ astDump [f] = astDump [g] := by
+  have e1 := parse_print f hf hrf cs
+  have e2 := parse_print g hg hrg cs'
+  rw [h, e2] at e1
+  have : g = f := Option.some.inj e1
+  subst this
+  exact ⟨rfl, rfl⟩
+
+/-- syntactic criterion for the integer condition of `fileRT`: a literal in base 2, 10 or 16 whose value fits the 200 digits
+    the printer writes and whose `underscores` flag is set only where an underscore is actually written (three digits or
+    more) reads back as itself: `try_parse_integer` (underscores removed, base from the prefix, `from_str_radix`) returns
+    the value, the base and the flag. -/
+theorem integer_literals_read_back (l : IntLit) (h : intCanon l = true) : intRT l = true := intRT_of_canon l h
+
+/-- syntactic criterion for the directive condition of `fileRT`: identifiers joined by `::` — keyword spellings included —
+    read back, inside `[ ]`, as the `RelativeIdentifier` whose `::`-join is the directive. -/
+theorem directives_read_back (segs : List String) (hne : segs ≠ []) (h : ∀ s ∈ segs, isIdentText s.toList = true) :
+    dirRT ("::".intercalate segs) = true := dirRT_of_segments segs hne h
+
+/-- syntactic criterion for the name conditions of `fileRT`, up to one fact about `String.splitOn` that core does not
+    provide (joining the segments gives the string back — stated as a hypothesis): a scoped name whose `::`-separated
+    segments are identifiers (the first may be empty: global scope; keywords are escaped by the printer) reads back as
+    itself, as a type name and — without empty segment — as a module path. -/
+theorem names_read_back (id : String) (h : nameSegsOk (id.splitOn "::") = true)
+    (hjoin : "::".intercalate (id.splitOn "::") = id) :
+    nameRT id = true ∧ ((id.splitOn "::").all (fun s => isIdentText s.toList) = true → pathRT id = true) :=
+  nameRT_of_segments id h hjoin
+
+/-- a file the parser accepts is reported as a syntax error all the same when it has definitions but no module
+    declaration (`parse_file`, after the parser): the condition under which a printed file is free of E002. -/
+theorem printed_file_syntax_verdict (f : SFile) (hf : fileOk f = true) (hrt : fileRT f = true) (layout seed : Nat) :
+    syntaxError (render layout seed (fileItems f)).1.toList = moduleRequired f := by
+  obtain ⟨cs, _, hlex, _⟩ := layout_independence f hf layout seed
+  simp only [syntaxError, hlex, parse_print f hf hrt cs]
 
 /-! non-vacuity -/
 example : unescapeLit "a\\\"b\\\\c".toList false = "a\"b\\c".toList := by decide
@@ -301,6 +422,62 @@ example : lexSlice "/// d\re\r\nx".toList = .ok [.doc [' ', 'd', '\r', 'e'], .id
 example : (lexRun false "[a\n// ]\n struct]struct".toList).items =
     [.tok .lbracket, .tok (.ident ['a']), .tok (.ident "struct".toList), .tok .rbracket, .tok (.kw "StructKeyword")] := by decide
 
+
+/-! ### the parser half: non-vacuity and necessity of the side conditions -/
+
+/-- two definitions and an interface: file attribute with a quoted and a bare argument, doc comments, a compact struct with a
+    tagged optional field carrying attributes (also on the nested type), an unchecked enum with an underlying type,
+    explicit (negative, hexadecimal) and implicit values and an enumerator with fields, an idempotent operation with a
+    tagged streamed parameter and a tuple return, an operation returning a tagged streamed optional -/
+def exFile2 : SFile := ⟨[⟨"cs::attr", ["a b", "x"]⟩], none,
+  [.struct [" doc"] [⟨"deprecated", []⟩] true "S"
+     [⟨[], [⟨"a", ["b"]⟩], some ⟨false, 10, 3, false⟩, "x", .mk [] (.seq (.mk [⟨"t", []⟩] (.prim .string) true)) true⟩,
+      ⟨[" f"], [], none, "y", .mk [] (.dict (.mk [] (.prim .int32) false) (.mk [] (.prim .bool) false)) false⟩],
+   .enum [] [] false true "E" (some (.mk [] (.prim .uint8) false))
+     [⟨[], [], "A", none, some ⟨true, 16, 255, false⟩⟩,
+      ⟨[" d"], [], "B", some [⟨[], [], none, "v", .mk [] (.prim .bool) false⟩], none⟩, ⟨[], [], "C", none, none⟩],
+   .iface [] [] "I" []
+     [⟨[" op"], [⟨"oneway", []⟩], true, "op",
+        [⟨[], none, "a", false, .mk [] (.prim .int32) false⟩, ⟨[], some ⟨false, 10, 1, false⟩, "b", true, .mk [] (.prim .uint8) true⟩],
+        .tuple [⟨[], none, "r", false, .mk [] (.prim .bool) false⟩, ⟨[], none, "s", false, .mk [] (.prim .string) false⟩]⟩,
+      ⟨[], [], false, "op2", [], .single (some ⟨false, 16, 1000, true⟩) true (.mk [] (.prim .string) true)⟩]]⟩
+example : fileOk exFile2 = true := by decide
+example : fileRT exFile2 = true := by decide
+/-- the hypotheses of `parse_print` hold for it, so the theorem applies: with every optional comma written, with none -/
+example : parseFile (tokensWith false (List.replicate 20 true) (fileItems exFile2)) = some exFile2 :=
+  parse_print exFile2 (by decide) (by decide) _
+example : parseFile (tokensOf (fileItems exFile2)) = some exFile2 := parse_print_canonical exFile2 (by decide) (by decide)
+example (layout seed : Nat) : parseText (render layout seed (fileItems exFile2)).1.toList = some exFile2 :=
+  parse_print_full exFile2 (by decide) (by decide) layout seed
+set_option maxRecDepth 8000 in
+/-- the commas really are there: seven optional commas (2 fields, 3 enumerators, between the 2 parameters, between the 2
+    return elements) make the sequence seven tokens longer -/
+example : (tokensWith false (List.replicate 20 true) (fileItems exFile2)).length = (tokensOf (fileItems exFile2)).length + 7 := by decide
+/-- the parser is not the constant function: a token sequence that is not a file is rejected, one with definitions but no
+    module is accepted by the grammar and reported by `parse_file` -/
+example : parseFile [.kw "StructKeyword", .ident ['S'], .lbrace] = none := by decide
+set_option maxRecDepth 8000 in
+example : syntaxError "struct S {}".toList = true ∧ syntaxError "module M struct S {}".toList = false := by decide
+set_option maxRecDepth 8000 in
+example : syntaxError "module M struct S {a:bool,,}".toList = true ∧ syntaxError "module M struct S {a:bool,}".toList = false := by decide
+set_option maxRecDepth 8000 in
+example : syntaxError "module M interface I{op(///d\na:bool)}".toList = true ∧ syntaxError "///d\nmodule M".toList = true ∧
+    syntaxError "module M interface I{op(a:bool)}".toList = false := by decide
+/-- necessity of `docLineRT`: a doc line starting with `/` is written `////…`, which is a plain comment — the doc line is not in the
+    token sequence at all; a doc line ending in CR loses the CR (it belongs to the line ending) -/
+example : tokensOf (fileItems ⟨[], none, [.custom ["/x"] [] "C"]⟩) = [.kw "CustomKeyword", .ident ['C']] := by decide
+example : tokensOf (fileItems ⟨[], none, [.custom ["x\r"] [] "C"]⟩) = [.doc ['x'], .kw "CustomKeyword", .ident ['C']] := by decide
+/-- necessity of `intRT`: `underscores` on a literal of fewer than three digits writes no underscore and reads back as `false` -/
+example : intOfText (IntLit.magText ⟨false, 10, 5, true⟩).toList = ⟨false, 10, 5, false⟩ := by decide
+example : intRT ⟨false, 10, 5, true⟩ = false ∧ intRT ⟨true, 16, 4096, true⟩ = true ∧ intRT ⟨false, 2, 0, false⟩ = true := by decide
+/-- necessity of `dirRT`: these directives satisfy `attrOk` (they print as identifier / `::` tokens) but do not read back:
+    `a::::b` is not a `RelativeIdentifier` at all, `\a` reads back as `a` -/
+example : attrOk ⟨"a::::b", []⟩ = true ∧ dirRT "a::::b" = false ∧ attrOk ⟨"\\a", []⟩ = true ∧ dirRT "\\a" = false ∧
+    dirRT "cs::attr" = true := by decide
+/-- an attribute argument that looks like an identifier is printed bare, any other quoted; both read back as the argument -/
+example : argTok "x" = .ident ['x'] ∧ argTok "a b" = .strLit ['a', ' ', 'b'] ∧ argTok "struct" = .strLit "struct".toList ∧
+    argOf (argTok "a\"b\\") = some "a\"b\\" := by decide
+
 end Slicec.C02
 
 #print axioms Slicec.C02.unescape_escape
@@ -324,3 +501,17 @@ end Slicec.C02
 #print axioms Slicec.C02.layout_independence
 #print axioms Slicec.C02.canonical_tokens
 #print axioms Slicec.C02.two_layouts_same_tokens
+#print axioms Slicec.C02.grammar_table_matches
+#print axioms Slicec.C02.parser_fuel_never_exhausted
+#print axioms Slicec.C02.parsers_consume
+#print axioms Slicec.C02.printed_tokens_have_shape
+#print axioms Slicec.C02.parser_inverts_shape
+#print axioms Slicec.C02.parse_print
+#print axioms Slicec.C02.parse_print_canonical
+#print axioms Slicec.C02.parse_print_full
+#print axioms Slicec.C02.layouts_same_file
+#print axioms Slicec.C02.tokens_determine_file
+#print axioms Slicec.C02.printed_file_syntax_verdict
+#print axioms Slicec.C02.integer_literals_read_back
+#print axioms Slicec.C02.directives_read_back
+#print axioms Slicec.C02.names_read_back
